@@ -205,6 +205,9 @@ class _State:
                             self.lens[g] += 1
                             self.res.mutated[ta] = "insert"
                             self.res.env["__ins_idx__"] = idx
+                            # the inserted object is now the element at that index: a name bound to it denotes that element
+                            if len(s.value.args) >= 3 and isinstance(s.value.args[2], ast.Name) and isinstance(idx, int):
+                                self.env[s.value.args[2].id] = Elem(ta, idx)
                         else:
                             if isinstance(idx, int) and not (0 <= idx < self.lens[g]):
                                 raise _OutOfRange({"arr": ta, "idx": idx, "len": self.lens[g], "node": s,
